@@ -259,6 +259,46 @@ public class Outer {
     }
 }
 `},
+	{"TwoInner", "two-sibling-member-classes", `package a;
+
+public class TwoInner {
+    private int id;
+
+    static class Item {
+        int qty;
+
+        void bump() {
+        }
+    }
+
+    static class Address {
+        String street;
+
+        void clear() {
+        }
+    }
+
+    void touch() {
+    }
+}
+`},
+	{"DeepInner", "member-classes-nested-two-deep", `package a;
+
+public class DeepInner {
+    static class Level1 {
+        static class Level2 {
+            void deep() {
+            }
+        }
+
+        void mid() {
+        }
+    }
+
+    void top() {
+    }
+}
+`},
 	{"Defaulted", "interface-default-method-with-undeclared-receiver-x", `package a;
 
 public interface Defaulted {
